@@ -92,6 +92,12 @@ def task(desc):
     try:
         r, names, expect_exe, expect_args = build(desc, s)
         args = ["run", "-c"] + desc["commands"]
+        if desc.get("via") in ("sequence", "sequence+c"):
+            # the same commands reached through a sequence (all of them, or all but the last one, which stays in -c)
+            seq_cmds = desc["commands"] if desc["via"] == "sequence" else desc["commands"][:-1]
+            r.cfg["sequences"] = {"dev": seq_cmds}
+            r.write_cfg()
+            args = ["run", "-s", "dev"] + ([] if desc["via"] == "sequence" else ["-c", desc["commands"][-1]])
         selected = names
         if desc["args"] is not None:
             args += ["-t", names[0], "-a"] + desc["args"]
@@ -223,6 +229,13 @@ def scenarios(tier):
             files = [{"base": "args", "m1": "args", "m2": None}, {"base": "args", "m1": "nocmd", "m2": "args"}]
             out.append({"targets": 2, "commands": ["build", "test"], "files": files, "argmaps_opt": ["m1", "m2"], "no_base": False,
                         "args": None, "argdir": argdir, "cmdsrc": cmdsrc, "vocab": plain, "foreign": True})
+    # (2i) commands reached through -s <sequence> (alone, or followed by -c): same argv as with -c
+    for via in ("sequence", "sequence+c"):
+        for cmdsrc in ("default", "defpath"):
+            for o in (None, ["m2", "m1"]):
+                files = [{"base": "args", "m1": "args", "m2": "args"}, {"base": "args", "m1": "nocmd", "m2": None}]
+                out.append({"targets": 2, "commands": ["build", "test"], "files": files, "argmaps_opt": o, "no_base": False,
+                            "args": None, "argdir": "default", "cmdsrc": cmdsrc, "vocab": plain, "via": via})
     # (2h) the same target named twice in -t
     for cmdsrc in ("default", "defpath"):
         files = [{"base": "args", "m1": "args", "m2": None}] * 2
